@@ -485,8 +485,8 @@ def r4_5(ctx, R):
                      "(C07 R7.1 instances, re-evaluated); the slot map's FromIterator is collect(map(into_iter(arg), Occupied)) "
                      "with no reordering adaptor, free_head = filled = len")
     mus = c07.mu_structs(ctx)
-    c07.r7_1(ctx, R, mus)
-    ctx.rule("R7.1", "see C07 R7.1 (shared)")
+    c07.r7_1(ctx, R, mus, placement_only=True)
+    ctx.rule("R7.1", "see C07 R7.1 (shared, placement part only): the write targets output[i] with i and the value taken from the same drained tuple")
     sm = R.slot_enum[1]
     occ, free = R.slot_variants
     fb = None
